@@ -365,7 +365,12 @@ func (w *world) attempts(sp spelling, depth int) []attempt {
 		add("versionId", "PutObjectLegalHold", &s3c.Req{Method: "PUT", Path: nb + "seed/versioned", Query: "legal-hold=&" + s3c.Q("versionId", v), Body: lh, Header: s3c.H{{"Content-MD5", md5(lh)}}}, named, "seed/versioned", false)
 	}
 	// --- uploadId / partNumber
-	for _, v := range []string{dirT, fileT, upT + victim} {
+	upIDs := []string{dirT, fileT, upT + victim}
+	if depth == 1 && sp.name == "raw" {
+		// ids that name no upload but the place where uploads are kept, or more than one upload
+		upIDs = append(upIDs, "", ".", "./", "*", w.uploadID[:len(w.uploadID)/2], w.uploadID+"/", w.uploadID+"/.", "./"+w.uploadID+"/../")
+	}
+	for _, v := range upIDs {
 		add("uploadId", "UploadPart", &s3c.Req{Method: "PUT", Path: nb + "mpu/key", Query: s3c.Q("partNumber", "1", "uploadId", v), Body: []byte("PARTDATA-BY-C04")}, named, "mpu/key", false)
 		add("uploadId", "ListParts", &s3c.Req{Method: "GET", Path: nb + "mpu/key", Query: s3c.Q("uploadId", v)}, named, "mpu/key", true)
 		add("uploadId", "AbortMultipartUpload", &s3c.Req{Method: "DELETE", Path: nb + "mpu/key", Query: s3c.Q("uploadId", v)}, named, "mpu/key", false)
@@ -482,6 +487,11 @@ func (w *world) run(id string, a attempt, who string, spName string, depth int) 
 		case !w.inNamed(rel, a.namedBucket):
 			outside = append(outside, d)
 		case strings.Contains(rel, "/.sgwtmp"):
+			// bookkeeping of the named bucket; but a request that names another upload id (or none) must leave the
+			// upload that is in progress alone
+			if a.param == "uploadId" && strings.Contains(rel, w.uploadID) && !strings.Contains(a.req.Query, "uploadId="+w.uploadID+"&") && !strings.HasSuffix(a.req.Query, "uploadId="+w.uploadID) {
+				sibling = append(sibling, d)
+			}
 		case strings.HasPrefix(rel, "L1/L2/root/"+named+"/seed") || rel == "L1/L2/root/"+named+"/top.txt":
 			lit := "L1/L2/root/" + named + "/" + a.literalKey
 			if rel != lit && !(strings.HasPrefix(lit, rel+"/")) {
@@ -541,7 +551,11 @@ func (w *world) run(id string, a attempt, who string, spName string, depth int) 
 	}
 	if len(sibling) > 0 {
 		det["changed_sibling"] = trimList(sibling, 4)
-		c.Violation(sigBase+":other-object-of-same-bucket-changed", id, det)
+		what := ":other-object-of-same-bucket-changed"
+		if a.param == "uploadId" {
+			what = ":upload-the-request-did-not-name-changed"
+		}
+		c.Violation(sigBase+what, id, det)
 	}
 	// (2) no canary content in the response
 	hay := string(resp.Body)
